@@ -333,7 +333,14 @@ def laplace (f : Fld) : M Fld :=
     | some vs =>
       match mapE (lapComp f) vs with
       | .error e => .error e
-      | .ok ds => stack ds
+      | .ok ds =>
+        match stack ds with
+        | .error e => .error e
+        | .ok r =>
+          -- `result.vdims = self.vdims; result.vdim_mapping = self.vdim_mapping` (nvdim > 1 only)
+          match setVdims r f.vdims with
+          | .error e => .error e
+          | .ok r' => setVmap r' (some f.vmap)
 
 /-! ## one quarter turn (`k = 1`), as far as C05's commutation claim needs it -/
 
@@ -351,7 +358,19 @@ def rotRegion (r : Region) (a b : Nat) (ref : List Rat) : M Region :=
     (setAt (setAt r.pmax a (ref.getD a 0 - (r.hi b - ref.getD b 0))) b (ref.getD b 0 + (r.hi a - ref.getD a 0)))
     (some r.dims) (some (swapAt r.units a b)) r.tol
 
-/-- `Mesh.rotate90(ax1, ax2, k=1)` (copy form, about the region's centre); `bc` is kept as it is -/
+/-- `str.translate(str.maketrans({ax1: ax2, ax2: ax1}))` on one character (single-character axis names) -/
+def swapChar (da db : String) (c : Char) : Char :=
+  if [c] = da.toList then db.toList.headD c else if [c] = db.toList then da.toList.headD c else c
+
+/-- periodic directions turn with the mesh (odd `k`): unless `bc` is one of the words
+`neumann` / `dirichlet` / empty, or an axis name is not a single character, the two axis
+names are exchanged in `bc` -/
+def rotBc1 (bc da db : String) : String :=
+  if !(bc == "neumann" || bc == "dirichlet" || bc == "") && da.toList.length == 1 && db.toList.length == 1 then
+    String.ofList (bc.toList.map (swapChar da db))
+  else bc
+
+/-- `Mesh.rotate90(ax1, ax2, k=1)` (copy form, about the region's centre) -/
 def rotMesh (m : Mesh) (da db : String) : M Mesh :=
   if da = db then .error .value
   else
@@ -366,7 +385,7 @@ def rotMesh (m : Mesh) (da db : String) : M Mesh :=
             | .ok r' => .ok (s.1, r')) m.subs with
         | .error e => .error e
         | .ok subs =>
-          match Mesh.mkN? r (swapAt m.n a b) m.bc with
+          match Mesh.mkN? r (swapAt m.n a b) (rotBc1 m.bc da db) with
           | .error e => .error e
           | .ok m' => .ok { m' with subs := subs }
     | _, _ => .error .value
@@ -491,13 +510,33 @@ structure MeshWf (f : Fld) : Prop where
 def rotIdx (f : Fld) (a b : Nat) (i : List Nat) : List Nat :=
   setAt (setAt i a (i.getD b 0)) b (f.mesh.nAt b - 1 - i.getD a 0)
 
+/-- the periodicity of the two axes of the plane turns with the mesh: either both axis names
+are single characters (then `Mesh.rotate90` exchanges them in `bc`; `bc` must not be one of
+the words `neumann` / `dirichlet`, whose letters `Field.diff` would otherwise read as axis
+names), or the two axes are periodic alike to begin with -/
+def BcTurns (f : Fld) (a b : Nat) : Prop :=
+  ((f.mesh.region.dims.getD a "").toList.length = 1 ∧ (f.mesh.region.dims.getD b "").toList.length = 1 ∧
+    f.mesh.bc ≠ "neumann" ∧ f.mesh.bc ≠ "dirichlet")
+  ∨ periodic f a = periodic f b
+
+/-- the turned `bc` is what the `Mesh` constructor accepts unchanged (lower case, naming axes
+of the mesh once each) -/
+structure TurnWf (f : Fld) (a b : Nat) : Prop where
+  turns : BcTurns f a b
+  bc_lower : (rotBc1 f.mesh.bc (f.mesh.region.dims.getD a "") (f.mesh.region.dims.getD b "")).toLower
+    = rotBc1 f.mesh.bc (f.mesh.region.dims.getD a "") (f.mesh.region.dims.getD b "")
+  bc_ok : Mesh.bcOk f.mesh.region.dims
+    (rotBc1 f.mesh.bc (f.mesh.region.dims.getD a "") (f.mesh.region.dims.getD b "")) = true
+
 /-- what one quarter turn in the plane of axes `a ≠ b` does, as far as differentiation is
-concerned: geometry (cell counts and cell sizes of the two axes swapped, names and `bc`
+concerned: geometry (cell counts, cell sizes AND periodicity of the two axes exchanged, names
 kept) and where every value and validity flag comes from -/
 structure IsRot90 (f R : Fld) (a b : Nat) : Prop where
   ndim : R.mesh.ndim = f.mesh.ndim
   dims : R.mesh.region.dims = f.mesh.region.dims
-  bc : R.mesh.bc = f.mesh.bc
+  per_a : periodic R a = periodic f b
+  per_b : periodic R b = periodic f a
+  per_e : ∀ e, e < f.mesh.ndim → e ≠ a → e ≠ b → periodic R e = periodic f e
   n_a : R.mesh.nAt a = f.mesh.nAt b
   n_b : R.mesh.nAt b = f.mesh.nAt a
   n_e : ∀ e, e ≠ a → e ≠ b → R.mesh.nAt e = f.mesh.nAt e
